@@ -3,6 +3,8 @@ import MxModel.Proofs.ExecTaint
 import MxModel.Proofs.ExecGhostOps
 import MxModel.Proofs.ExecLog
 import MxModel.Exec.Expr
+import MxModel.Proofs.ExprSpell
+import MxModel.Proofs.ExprBindItem
 /-!
 # C01 – memoisation is transparent
 
@@ -147,6 +149,195 @@ theorem held_never_reexecuted (ef : Node → St → Res × St) (n : Node) (s : S
   · unfold St.addEdge St.addNode; simp only []; repeat' split
     all_goals rfl
   · rfl
+
+/-! ### calls that bind to the same arguments denote the same element
+
+A request `c(pos…, k=v…)` – from outside (`evalSpelled`, the driver's `eval`; `c[args]` and `c.value` are the
+spellings without keywords) or from a formula (`Expr.callK`) – is bound against the signature of `c`
+(`a` positional-or-keyword parameters, the last `dflt.length` of them with the defaults `dflt`) by
+`bindKey`, the model of `node._bind_args`.  `Binds` / `canonKey` (`Proofs/ExprBindSpec.lean`) are
+Python's rule: what is accepted, and the fully positional key with keyword values and trailing defaults
+filled in.  All theorems hold for every signature, every spelling, every environment, every state. -/
+
+/-- **`bindKey` is Python's rule**: a spelling binds iff there is no surplus positional argument, no
+repeated keyword, every keyword names a parameter that has no positional argument, and every parameter
+without a default is supplied; the bound key is the fully positional one (`canonKey`: positional
+arguments, then keyword values, then the defaults of the LAST parameters). -/
+theorem bind_is_pythons_rule (a : Nat) (dflt pos : List Val) (kw : List (Nat × Val)) (key : Key) :
+    bindKey a dflt pos kw = some key ↔ Binds a dflt pos kw ∧ key = canonKey a dflt pos kw :=
+  bindKey_iff a dflt pos kw key
+
+/-- keyword arguments in any order, and the fully positional spelling of the bound key, denote the same
+element; a bound key has one value per parameter -/
+theorem bind_keyword_order_and_canonical (a : Nat) (dflt pos : List Val) (kw kw' : List (Nat × Val))
+    (hp : kw.Perm kw') :
+    bindKey a dflt pos kw = bindKey a dflt pos kw' ∧
+    ∀ key, bindKey a dflt pos kw = some key → bindKey a dflt key [] = some key ∧ key.length = a :=
+  ⟨bindKey_perm a dflt pos hp, fun key h => ⟨bindKey_canonical a dflt pos kw key h, bindKey_length a dflt pos kw key h⟩⟩
+
+/-- **The exec layer's binder and the C07 kernel's binder are the same function** (the statement SEEDE left
+open): under any injective naming of the parameters (`nm`; the driver and the harness use `a<i>`) and the
+embedding of the C07 kernel's integer values, `bindKey` computes what `ItemSpace.bindArgs` computes – for
+which `C07.bind_iff` / `bind_canonical` say that it is Python's rule – for every signature (`sigOf`: `a`
+parameters, the last ones with the defaults `dflt`) and every spelling. -/
+theorem bind_agrees_with_itemspace_binding (nm : Nat → String) (hinj : ∀ i j, nm i = nm j → i = j) (a : Nat)
+    (dflt pos : List Int) (kw : List (Nat × Int)) :
+    bindKey a (dflt.map .int) (pos.map .int) (kwVals kw) =
+      (ItemSpace.bindArgs (sigOf nm a dflt) pos (kwNamed nm kw)).map (·.map Val.int) :=
+  bindKey_eq_bindArgs hinj a dflt pos kw
+
+example : bindKey 3 [.int 100, .int 10] [] [(2, .int 5), (0, .int 3)] =
+    (ItemSpace.bindArgs (sigOf nmA 3 [100, 10]) [] [("aa", 5), ("", 3)]).map (·.map Val.int) :=
+  bind_agrees_with_itemspace_binding nmA nmA_inj 3 [100, 10] [] [(2, 5), (0, 3)]
+
+/-- **Equal spellings, same element (top level).**  Two spellings – positional, keyword in any order,
+mixed, relying on defaults – that bind to the same key are, in the mechanism, the same request: what
+either of them does is `evalTop` of the one node `(c, key)` – same result, same resulting state (cache,
+graphs, log). -/
+theorem equal_spellings_same_element (c : CellId) (a : Nat) (dflt pos pos' : List Val)
+    (kw kw' : List (Nat × Val)) (key : Key)
+    (h : bindKey a dflt pos kw = some key) (h' : bindKey a dflt pos' kw' = some key) (s : St) :
+    evalSpelled env c a dflt pos kw s = (.res (evalTop env (c, key) s).1, (evalTop env (c, key) s).2) ∧
+    evalSpelled env c a dflt pos' kw' s = evalSpelled env c a dflt pos kw s := by
+  rw [evalSpelled_of_bind h, evalSpelled_of_bind h']
+  exact ⟨rfl, rfl⟩
+
+/-- … stated with Python's rule: every accepted spelling evaluates the element `canonKey` -/
+theorem spelling_denotes_canonical_element (c : CellId) (a : Nat) (dflt pos : List Val)
+    (kw : List (Nat × Val)) (hb : Binds a dflt pos kw) (s : St) :
+    evalSpelled env c a dflt pos kw s =
+      (.res (evalTop env (c, canonKey a dflt pos kw) s).1, (evalTop env (c, canonKey a dflt pos kw) s).2) :=
+  evalSpelled_of_bind (bindKey_of_binds hb) s
+
+/-- **One cache entry, computed once for both.**  For a cached cells: after a request under one spelling
+has returned `v`, the element is held under the bound key – under exactly one cache entry when it was not
+held before – and a request under ANY other spelling of the same key returns `v` and leaves the whole
+state as it is: no formula runs (the execution log is unchanged), no second entry is made. -/
+theorem equal_spellings_computed_once (c : CellId) (a : Nat) (dflt pos pos' : List Val)
+    (kw kw' : List (Nat × Val)) (key : Key) (hc : env.cached c = true)
+    (h : bindKey a dflt pos kw = some key) (h' : bindKey a dflt pos' kw' = some key) (s : St) (v : Val)
+    (hv : (evalSpelled env c a dflt pos kw s).1 = .res (.ok v)) :
+    lookup (evalSpelled env c a dflt pos kw s).2.data (c, key) = some v ∧
+    (lookup s.data (c, key) = none →
+      (evalSpelled env c a dflt pos kw s).2.data.filter (fun e => e.1 == (c, key)) = [((c, key), v)]) ∧
+    evalSpelled env c a dflt pos' kw' (evalSpelled env c a dflt pos kw s).2 =
+      (.res (.ok v), (evalSpelled env c a dflt pos kw s).2) := by
+  rw [evalSpelled_of_bind h] at hv ⊢
+  simp only [SpelledRes.res.injEq] at hv
+  have hheld := evalTop_ok_held env (c, key) s v hc hv
+  refine ⟨hheld, fun hl => evalTop_ok_one_entry env (c, key) s v hc hl hv, ?_⟩
+  rw [evalSpelled_of_bind h', held_never_reexecuted_top env (c, key) _ v hc hheld]
+
+/-- **Spellings that do not bind are refused before anything is evaluated**: `TypeError`, the state is
+untouched. -/
+theorem unbound_spelling_refused (c : CellId) (a : Nat) (dflt pos : List Val) (kw : List (Nat × Val))
+    (hb : ¬ Binds a dflt pos kw) (s : St) :
+    evalSpelled env c a dflt pos kw s = (.typeError, s) :=
+  evalSpelled_of_none ((bindKey_eq_none_iff a dflt pos kw).mpr hb) s
+
+/-- **Calls from formulas.**  Whatever the argument expressions are: once they are evaluated (in source
+order, as Python does), a spelled call `c(e…, k=e…)` IS the plain positional call of the bound key, or –
+when the values do not bind – a `TypeError` raised in the caller with no call made. -/
+theorem spelled_call_is_positional_call_of_bound_key (ar : CellId → Option Nat) (params : List Val) (c : CellId)
+    (a : Nat) (args : List Expr) (npos : Nat) (kws : List Nat) (dflt : List Val) (hc : ar c = some a)
+    (k : Val → Prog) (hh : Bool → Err → Prog) :
+    compile ar params (.callK c args npos kws dflt) k hh =
+      compileArgs ar params args (fun vs =>
+        match bindKey a dflt (vs.take npos) (kws.zip (vs.drop npos)) with
+        | some key => compile ar params (.call c (key.map valExpr)) k hh
+        | none => hh true (.user kType)) hh :=
+  compile_callK ar params c a args npos kws dflt hc k hh
+
+/-- **Equal spellings, same element (inside formulas).**  Two spelled calls whose arguments are
+effect-free expressions (literals, parameters: `ArgVals`) and bind to the same key compile to the SAME
+behaviour – the call of the node `(c, key)` – so a formula does exactly the same whichever spelling it
+uses: same callee node, same cache entry, same edge, same result (`retK`: a value goes on, a failure of
+the callee goes to the handler). -/
+theorem equal_spellings_same_element_in_formulas (ar : CellId → Option Nat) (params : List Val) (c : CellId)
+    (a : Nat) (dflt : List Val) (args args' : List Expr) (vs vs' : List Val) (npos npos' : Nat)
+    (kws kws' : List Nat) (key : Key) (hc : ar c = some a)
+    (hv : ArgVals params args vs) (hv' : ArgVals params args' vs')
+    (hb : bindKey a dflt (vs.take npos) (kws.zip (vs.drop npos)) = some key)
+    (hb' : bindKey a dflt (vs'.take npos') (kws'.zip (vs'.drop npos')) = some key)
+    (k : Val → Prog) (hh : Bool → Err → Prog) :
+    compile ar params (.callK c args npos kws dflt) k hh = .call (c, key) (retK k hh) ∧
+    compile ar params (.callK c args' npos' kws' dflt) k hh = compile ar params (.callK c args npos kws dflt) k hh := by
+  rw [compile_callK_pure ar params c a args vs npos kws dflt key hc hv hb,
+    compile_callK_pure ar params c a args' vs' npos' kws' dflt key hc hv' hb']
+  exact ⟨rfl, rfl⟩
+
+/-- … and a spelling that does not bind raises `TypeError` in the calling formula; the callee is not
+called -/
+theorem unbound_spelling_in_formula_raises (ar : CellId → Option Nat) (params : List Val) (c : CellId)
+    (a : Nat) (dflt : List Val) (args : List Expr) (vs : List Val) (npos : Nat) (kws : List Nat)
+    (hc : ar c = some a) (hv : ArgVals params args vs)
+    (hb : ¬ Binds a dflt (vs.take npos) (kws.zip (vs.drop npos)))
+    (k : Val → Prog) (hh : Bool → Err → Prog) :
+    compile ar params (.callK c args npos kws dflt) k hh = hh true (.user kType) :=
+  compile_callK_unbound ar params c a args vs npos kws dflt hc hv ((bindKey_eq_none_iff _ _ _ _).mpr hb) k hh
+
+/-! Non-vacuity, with numbers.  `rate(t, base=100, step=10) = t * base + step` (cells 0); three callers
+spell the same element `rate(3, 200, 10)`: `c1 = rate(3, 200)`, `c2 = rate(3, step=10, base=200)`,
+`c3 = rate(base=200, t=3)`; `c4 = rate(3, nosuch=1)` does not bind.  Evaluating `c1`, `c2`, `c3` one after
+the other gives 610 three times; `rate`'s formula runs ONCE (one log entry, one cache entry of cells 0);
+`c4` fails with `TypeError` and `rate` is not called. -/
+def rDflt : List Val := [.int 100, .int 10]
+def rCells : CellId → Option Expr
+  | 0 => some (.add (.mul (.param 0) (.param 1)) (.param 2))
+  | 1 => some (.callK 0 [.lit 3, .lit 200] 2 [] rDflt)
+  | 2 => some (.callK 0 [.lit 3, .lit 10, .lit 200] 1 [2, 1] rDflt)
+  | 3 => some (.callK 0 [.lit 200, .lit 3] 0 [1, 0] rDflt)
+  | 4 => some (.callK 0 [.lit 3, .lit 1] 1 [7] rDflt)
+  | _ => none
+def rAr : CellId → Option Nat
+  | 0 => some 3
+  | c => (rCells c).map (fun _ => 0)
+
+def rEnv : Env where
+  formula := fun n => match rCells n.1 with
+    | some e => formulaOf rAr e n.2
+    | none => .raise (.user kName)
+  cached := fun _ => true
+  allowNone := fun _ => false
+  refs := fun _ => .none
+  maxdepth := 10
+
+def rS1 : St := (evalTop rEnv (1, []) {}).2
+def rS2 : St := (evalTop rEnv (2, []) rS1).2
+def rS3 : St := (evalTop rEnv (3, []) rS2).2
+
+example : (evalTop rEnv (1, []) {}).1 = .ok (.int 610) ∧ (evalTop rEnv (2, []) rS1).1 = .ok (.int 610) ∧
+    (evalTop rEnv (3, []) rS2).1 = .ok (.int 610) ∧
+    rS3.log = [(3, []), (2, []), (0, [.int 3, .int 200, .int 10]), (1, [])] ∧
+    rS3.data.filter (fun e => e.1.1 == 0) = [((0, [.int 3, .int 200, .int 10]), .int 610)] ∧
+    (evalTop rEnv (4, []) rS3).1 = .formulaError (.user kType) [(4, [])] ∧
+    (evalTop rEnv (4, []) rS3).2.log = (4, []) :: rS3.log := by decide
+
+-- the same element requested from outside under four spellings (the third relies on one default, the
+-- fourth is the subscript / fully positional form); a spelling that does not bind
+example : (evalSpelled rEnv 0 3 rDflt [.int 3, .int 200] [] {}).1 = .res (.ok (.int 610)) ∧
+    evalSpelled rEnv 0 3 rDflt [.int 3] [(2, .int 10), (1, .int 200)] {} = evalSpelled rEnv 0 3 rDflt [.int 3, .int 200] [] {} ∧
+    evalSpelled rEnv 0 3 rDflt [] [(1, .int 200), (0, .int 3)] {} = evalSpelled rEnv 0 3 rDflt [.int 3, .int 200] [] {} ∧
+    evalSpelled rEnv 0 3 rDflt [.int 3, .int 200, .int 10] [] {} = evalSpelled rEnv 0 3 rDflt [.int 3, .int 200] [] {} ∧
+    (evalSpelled rEnv 0 3 rDflt [.int 3, .int 200] [] {}).2.log = [(0, [.int 3, .int 200, .int 10])] ∧
+    evalSpelled rEnv 0 3 rDflt [.int 3] [(0, .int 4)] {} = (.typeError, {}) := by
+  refine ⟨by decide, ?_, ?_, ?_, by decide, evalSpelled_of_none (by decide) {}⟩
+  · exact (equal_spellings_same_element rEnv 0 3 rDflt _ _ _ _ [.int 3, .int 200, .int 10] (by decide) (by decide) {}).2
+  · exact (equal_spellings_same_element rEnv 0 3 rDflt _ _ _ _ [.int 3, .int 200, .int 10] (by decide) (by decide) {}).2
+  · exact (equal_spellings_same_element rEnv 0 3 rDflt _ _ _ _ [.int 3, .int 200, .int 10] (by decide) (by decide) {}).2
+
+-- instance of `equal_spellings_computed_once`: the second spelling is served from the one entry
+example : evalSpelled rEnv 0 3 rDflt [] [(1, .int 200), (0, .int 3)] (evalSpelled rEnv 0 3 rDflt [.int 3, .int 200] [] {}).2 =
+    (.res (.ok (.int 610)), (evalSpelled rEnv 0 3 rDflt [.int 3, .int 200] [] {}).2) :=
+  (equal_spellings_computed_once rEnv 0 3 rDflt _ _ _ _ [.int 3, .int 200, .int 10] rfl (by decide) (by decide) {}
+    (.int 610) (by decide)).2.2
+
+-- instance of the formula-level theorem: `c2`'s and `c3`'s calls are the same behaviour as `c1`'s
+example (k : Val → Prog) (hh : Bool → Err → Prog) :
+    compile rAr [] (.callK 0 [.lit 200, .lit 3] 0 [1, 0] rDflt) k hh =
+      compile rAr [] (.callK 0 [.lit 3, .lit 200] 2 [] rDflt) k hh :=
+  (equal_spellings_same_element_in_formulas rAr [] 0 3 rDflt _ _ [.int 3, .int 200] [.int 200, .int 3] 2 0 [] [1, 0]
+    [.int 3, .int 200, .int 10] rfl (by simp [ArgVals, argVal]) (by simp [ArgVals, argVal]) (by decide) (by decide) k hh).2
 
 /-! ### computed once: the execution log
 
